@@ -208,6 +208,7 @@ func runC01(p *an.Prog, r *an.Run, tier string) {
 	drivers := p.Implementations(p.Iface("pool/store", "Store"))
 	r.Floor("drivers", len(drivers), 2)
 	checkLedgerWriterMethods(p, r)
+	checkTxnWrappers(p, r)
 	for _, d := range drivers {
 		checkDriverLedger(p, r, d)
 	}
